@@ -323,7 +323,7 @@ def helper_stream(ctx, torch, report, notes):
                     if v != exact(c, n):
                         report('helper-not-exact:%s' % name, None, {'helper': name, 'x': c, 'N': n, 'value': v, 'required': exact(c, n)},
                                '%s(%d, %d) = %r but %s = %d' % (name, c, n, v, what, exact(c, n)))
-                if math.isfinite(v):
+                if math.isfinite(v) and (not isinstance(c, int) or c in BOUNDARY_CH or c > 130 or not ctx.quick):
                     pairs.append(('%s %s %s' % (cname, coq(Fraction(c)), coq(Fraction(n))), Fraction(v), (name, str(c), n)))
         if is_ste:   # straight-through: d out / d x = 1
             for c in (0, 1, 3, 4, 5, 31, 32, 33, Fraction(9, 4), Fraction(1, 2)):
